@@ -5,6 +5,7 @@ import (
 	"fmt"
 
 	schema "github.com/jsightapi/jsight-schema-core"
+	"github.com/jsightapi/jsight-schema-core/kit"
 	"github.com/jsightapi/jsight-schema-core/notations/jschema"
 	"github.com/jsightapi/jsight-schema-core/notations/regex"
 
@@ -145,6 +146,14 @@ func (core *JApiCore) compileUserTypeWithAllDependencies(name string) error {
 	// Check user type is correct.
 	// We should do it here 'cause it will simplify further processing.
 	if err := currUT.Check(); err != nil {
+		// The check of a type compiles the types it uses: the error may be about one of them, with an index into that
+		// type's body (as in checkUserType).
+		var e kit.Error
+		if stdErrors.As(err, &e) && e.IncorrectUserType() != "" && e.IncorrectUserType() != name {
+			if d := dd.GetValue(e.IncorrectUserType()); d != nil {
+				return jschemaToJAPIError(err, d)
+			}
+		}
 		return jschemaToJAPIError(err, dd.GetValue(name))
 	}
 
